@@ -292,6 +292,7 @@ where
         + Umask
         + SetRlimit
         + yash_env::system::Pipe
+        + yash_env::system::Select
         + yash_env::system::resource::GetRlimit,
 {
     let cstr = |p: &str| CString::new(p).unwrap();
@@ -496,6 +497,48 @@ where
                     Ok(b) => format!("={}", b as u8),
                     Err(e) => errno_name(e),
                 },
+                None => "?".into(),
+            },
+            // fill a (non-blocking) pipe until the kernel refuses more: the capacities differ (1024 bytes on the
+            // simulator, 64 KiB on Linux), the state "full" is what is compared
+            ["fill", _] => match fdarg(1) {
+                Some(fd) => {
+                    // 256-byte chunks until refused, then single bytes until even one byte is refused
+                    let chunk = [b'x'; 256];
+                    let mut size = 256;
+                    let mut rounds = 0;
+                    loop {
+                        rounds += 1;
+                        match now(sys.write(fd, &chunk[..size])) {
+                            Ok(_) if rounds < 200_000 => continue,
+                            Ok(_) => break "NEVERFULL".to_string(),
+                            Err(Errno::EAGAIN) if size > 1 => size = 1,
+                            Err(Errno::EAGAIN) => break "full".to_string(),
+                            Err(e) => break errno_name(e),
+                        }
+                    }
+                }
+                None => "?".into(),
+            },
+            // select with a zero timeout on one descriptor: is it ready for reading / writing?
+            ["sel", _, dir] => match fdarg(1) {
+                Some(fd) => {
+                    use yash_env::system::FdSet as _;
+                    let mut readers = S::FdSet::new();
+                    let mut writers = S::FdSet::new();
+                    if *dir == "r" { readers.insert(fd) } else { writers.insert(fd) }
+                    let r = sys
+                        .select(&mut readers, &mut writers, Some(std::time::Duration::ZERO), None)
+                        .now_or_never();
+                    match r {
+                        None => "BLOCKED".to_string(),
+                        Some(Err(e)) => errno_name(e),
+                        Some(Ok(_)) => {
+                            let ready = if *dir == "r" { readers.contains(fd) } else { writers.contains(fd) };
+                            format!("={}", ready as u8)
+                        }
+                    }
+                }
                 None => "?".into(),
             },
             ["rlim"] => match sys.getrlimit(Resource::NOFILE) {
@@ -753,6 +796,7 @@ fn run_seq_case(case: &str) {
         .find_map(|w| w.strip_prefix("lim=").and_then(|n| n.parse().ok()))
         .unwrap_or(64);
     let ops: Vec<&str> = parts.filter(|s| !s.is_empty()).collect();
+    yverif::proto::watch_case(case, 120);
     let v = guarded(|| seq_virtual(limit, &ops));
     let r = seq_real(limit, &ops);
     let oracle = if v == r { "ok".to_string() } else { format!("FAIL:real-differs({})", first_difference(&v, &r)) };
@@ -767,8 +811,9 @@ fn run_seq_case(case: &str) {
 // ------------------------------------------------------------------------------------------
 // system-call generator
 
-const CLASSES: [&str; 11] = [
+const CLASSES: [&str; 12] = [
     "clean", "mkparent", "dirwrite", "emfile", "dotdot", "chdirup", "dup2same", "opendir", "filedot", "lsfull", "pipes",
+    "pipefull",
 ];
 
 struct Gen {
@@ -1118,7 +1163,71 @@ impl Gen {
     }
 }
 
+/// Class `pipefull`: readiness (`select` with a zero timeout) of a pipe that is filled to capacity, before
+/// and after its read end goes away.  Structured, because `fill`/`sel` need to know which descriptor is
+/// which end: 3/4 are the first pipe (and 5/6 a second one, or 5 a duplicate).
+fn gen_pipefull(rng: &mut Rng) -> String {
+    let mut ops: Vec<String> = vec!["pipe".into()];
+    if rng.chance(1, 2) {
+        ops.push("sel 3 r".into());
+        ops.push("sel 4 w".into());
+    }
+    if rng.chance(1, 2) {
+        ops.push(format!("write 4 {}", enc_bytes(b"AB")));
+        ops.push("sel 3 r".into());
+    }
+    let dup_reader = rng.chance(1, 3);
+    let dup_writer = !dup_reader && rng.chance(1, 3);
+    if dup_reader {
+        ops.push("dup 3 0 -".into()); // 5 = second descriptor on the read end
+    }
+    if dup_writer {
+        ops.push("dup 4 0 e".into()); // 5 = second descriptor on the write end
+    }
+    ops.push("fill 4".into());
+    ops.push("sel 4 w".into());
+    if rng.chance(1, 2) {
+        ops.push(format!("write {} 41", if dup_writer { 5 } else { 4 }));
+    }
+    if rng.chance(1, 3) {
+        ops.push("sel 3 r".into());
+    }
+    // the reader goes away without draining the pipe
+    ops.push("close 3".into());
+    ops.push("sel 4 w".into());
+    if dup_reader {
+        ops.push("write 4 41".into());
+        ops.push("close 5".into());
+        ops.push("sel 4 w".into());
+    }
+    ops.push(format!("write {} 41", if dup_writer { 5 } else { 4 }));
+    if dup_writer {
+        ops.push("sel 5 w".into());
+    }
+    match rng.below(3) {
+        0 => {
+            // a second pipe: the writer goes away, the reader sees data then end-of-file
+            ops.push("pipe".into());
+            ops.push("fill 6".into());
+            ops.push("close 6".into());
+            ops.push("sel 5 r".into());
+            ops.push("read 5 3".into());
+        }
+        1 => {
+            ops.push("open f1 rw - 0".into());
+            ops.push("sel 3 w".into());
+            ops.push("sel 3 r".into());
+            ops.push("sel 9 w".into());
+        }
+        _ => {}
+    }
+    format!("S pipefull lim=64; {}", ops.join("; "))
+}
+
 fn gen_seq(rng: &mut Rng, class: &'static str, thorough: bool) -> String {
+    if class == "pipefull" {
+        return gen_pipefull(rng);
+    }
     let limit = match class {
         "emfile" | "lsfull" => *rng.pick(&[4u64, 5, 6]),
         "pipes" => *rng.pick(&[64u64, 12, 8, 5]),
@@ -1795,6 +1904,7 @@ fn gen_proc(rng: &mut Rng, thorough: bool) -> String {
 
 fn run_proc_case(case: &str) {
     let ops: Vec<String> = case.split(';').skip(1).map(|s| s.trim().to_string()).filter(|s| !s.is_empty()).collect();
+    yverif::proto::watch_case(case, 120);
     let v = guarded(|| proc_virtual(&ops));
     let r = proc_real(&ops);
     let oracle = if v == r { "ok".to_string() } else { format!("FAIL:real-differs({})", first_difference(&v, &r)) };
@@ -2037,6 +2147,10 @@ fn replace_bytes(hay: &[u8], needle: &[u8], with: &[u8]) -> Vec<u8> {
 }
 
 fn run_shell_case(tag: &str, script: &str) {
+    // a simulator run that stalls is the observation STUCK (the executor has nothing left to wake), which
+    // differs from any real observation: a deadlock on the simulator is a concrete violation, not a hang
+    // of the check; the watchdog is only the last resort against a busy loop
+    yverif::proto::watch_case(&format!("H {tag} {}", enc_str(script)), 120);
     let v = guarded(|| shell_virtual(script));
     let r = shell_real(script);
     let case = format!("H {tag} {} real={r}", enc_str(script));
@@ -2047,7 +2161,7 @@ fn run_shell_case(tag: &str, script: &str) {
 /// (tag, script template); `%` is replaced by a per-instance suffix.  Tag `clean` = no catalogued
 /// divergence is involved.  Only built-ins of the real binary are used (`alias` without aliases is
 /// the do-nothing regular built-in, `typeset -p` the printer).
-const FRAGMENTS: [(&str, &str); 82] = [
+const FRAGMENTS: [(&str, &str); 86] = [
     ("clean", "x%=one; typeset -p x% >o%; x%=two; typeset -p x% >o%; read -r l <o%; typeset -p l"),
     ("clean", "x%=ap; typeset -p x% >>a%; x%=bp; typeset -p x% >>a%; umask >>a%"),
     ("clean", "set -C; alias >f1; s=$?; typeset -p s; typeset -p s >|f1; alias >n%; set +C; read -r l <f1; typeset -p l"),
@@ -2130,6 +2244,10 @@ const FRAGMENTS: [(&str, &str); 82] = [
     ("clean", "(ulimit -n 4; typeset -p PWD | read x; s=$?; typeset -p s); (ulimit -n 3; y=$(typeset -p PWD); s=$?; typeset -p s y); s=$?; typeset -p s"),
     ("clean", "kill -s USR1 999999; s=$?; typeset -p s; kill -s 0 $$; s=$?; typeset -p s; kill -s 0 999999; s=$?; typeset -p s"),
     ("clean", "trap 'g%=1' USR1; kill -s USR1 0; typeset -p g%; trap 'h%=1' USR2; (trap '' USR2; kill -s USR2 0; exit 3); s=$?; typeset -p s h%; trap - USR1 USR2"),
+    ("clean", "v%=0123456789abcdef; v%=$v%$v%$v%$v%$v%$v%$v%$v%; v%=$v%$v%$v%$v%$v%$v%$v%$v%; v%=$v%$v%; typeset -p v% | alias; s=$?; typeset -p s; x%=after; typeset -p x%"),
+    ("clean", "v%=0123456789abcdef; v%=$v%$v%$v%$v%$v%$v%$v%$v%; v%=$v%$v%$v%$v%$v%$v%$v%$v%; v%=$v%$v%; { typeset -p v%; typeset -p v%; typeset -p v%; } | { read -r l; n=${#l}; typeset -p n; }; s=$?; typeset -p s"),
+    ("clean", "v%=0123456789abcdef; v%=$v%$v%$v%$v%$v%$v%$v%$v%; v%=$v%$v%$v%$v%$v%$v%$v%$v%; v%=$v%$v%; typeset -p v% | (exit 3); s=$?; typeset -p s; typeset -p v% | { read -r a; } ; typeset -p v% | alias | alias; s=$?; typeset -p s"),
+    ("clean", "v%=0123456789abcdef; v%=$v%$v%$v%$v%$v%$v%$v%$v%; v%=$v%$v%$v%$v%$v%$v%$v%$v%; v%=$v%$v%; { typeset -p v%; typeset -p PWD >side%; } 2>/dev/null | alias; s=$?; typeset -p s; y%=$(typeset -p v% | alias; typeset -p s); typeset -p y%"),
 ];
 
 fn gen_script(rng: &mut Rng, allow_known: bool) -> (String, String) {
@@ -2217,7 +2335,7 @@ fn main() {
     let mut rng = Rng::new(opts.seed ^ 0xC19C_19C1);
     let n_seq = if thorough { 100_000 } else { 2_400 };
     for i in 0..n_seq {
-        let class = if i % 5 < 3 { "clean" } else { CLASSES[1 + (i / 5) % 10] };
+        let class = if i % 5 < 3 { "clean" } else { CLASSES[1 + (i / 5) % 11] };
         let case = gen_seq(&mut rng, class, thorough);
         if mine(&mut index) {
             run_seq_case(&case);
